@@ -142,7 +142,7 @@ class Detector:
 
         output = output.reshape((frames, *aerial_img.shape))
         if frames == 1:
-            output = output[0, :, :]
+            output = output[0]
 
         if self.lut is not None:
             output = apply_lut(output, self.lut)
